@@ -45,6 +45,42 @@ func cteDirect(evs []ev.Event, cfg *configuration.Configuration) ([]byte, int, e
 	return encodeWith(ce.NewCTEEncoder(cfg), evs, cfg, false)
 }
 
+// genC23Layout draws a document whose indentation depends on what the writer believes its column to be: a map
+// (under 0-2 lists) whose plain string keys are followed on the same line by 1-6 directly nested nodes and
+// edges. The key strings are whole arrays here; deliveries A and B send them as strings, bytes or chunks.
+func genC23Layout(t *rapid.T) []ev.Event {
+	out := []ev.Event{{K: ev.BD}, {K: ev.Version, U: 0}}
+	wraps := rapid.IntRange(0, 2).Draw(t, "layout.wraps")
+	for i := 0; i < wraps; i++ {
+		out = append(out, ev.Event{K: ev.List})
+	}
+	out = append(out, ev.Event{K: ev.Map})
+	for k := rapid.IntRange(1, 3).Draw(t, "layout.keys"); k > 0; k-- {
+		key := rapid.StringMatching(`[a-z]{1,9}`).Draw(t, "layout.key") + fmt.Sprint(k)
+		if rapid.Bool().Draw(t, "layout.keyform") {
+			out = append(out, ev.Event{K: ev.StringArray, AT: 1, S: key})
+		} else {
+			out = append(out, ev.Event{K: ev.Array, AT: 1, U: uint64(len(key)), Bs: []byte(key)})
+		}
+		depth := rapid.IntRange(1, 6).Draw(t, "layout.nodes")
+		for i := 0; i < depth; i++ {
+			out = append(out, ev.Event{K: ev.Node})
+		}
+		out = append(out, ev.Event{K: ev.True})
+		for i := 0; i < depth; i++ {
+			if rapid.IntRange(0, 3).Draw(t, "layout.child") == 0 {
+				out = append(out, ev.Event{K: ev.StringArray, AT: 1, S: "c"})
+			}
+			out = append(out, ev.Event{K: ev.End})
+		}
+	}
+	out = append(out, ev.Event{K: ev.End})
+	for i := 0; i < wraps; i++ {
+		out = append(out, ev.Event{K: ev.End})
+	}
+	return append(out, ev.Event{K: ev.ED})
+}
+
 func init() {
 	Register(&Prop{
 		ID:  "C23",
@@ -58,6 +94,9 @@ func init() {
 			avoid(ctx, &o)
 			gen.EmitEmptyData = true // zero-length data events are one more way of dividing the same data
 			base := gen.Document(t, o)
+			if rapid.IntRange(0, 7).Draw(t, "layout") == 0 {
+				base = genC23Layout(t)
+			}
 			c := &C23Case{Base: base, A: gen.Rechunk(t, base, true, true), B: gen.Rechunk(t, base, true, true), IntFmt: 255, FloatFmt: 255}
 			if rapid.IntRange(0, 2).Draw(t, "formats") == 0 {
 				// a non-default array format: the text still depends on the data only (float kinds: decimal or
